@@ -416,6 +416,22 @@ def deepcopy_check(chk, W):
                     if y.parent is not x:
                         return f"deep copy of sequence {q}: a listed unit does not name the copy as parent"
                     stack.append(y)
+    # a deep copy of a unit taken on its own (a pass out of a sequence, an inner sequence out of an outer one): the copy is a unit like any other -
+    # it names a parent only if that parent lists it, and never reaches into the original tree
+    for u in W.order:
+        x = W.objs[u]
+        if x.parent is None:
+            continue
+        memo = {}
+        c = copy.deepcopy(x, memo)
+        pc = c.parent
+        if pc is not None and (all(y is not c for y in pc.subunits) or any(pc is o for o in W.objs.values())):
+            return (f"deep copy of unit {u} (listed in {W.uid_of(x.parent)}): the copy names "
+                    f"{'the ORIGINAL sequence ' + str(W.uid_of(pc)) if any(pc is o for o in W.objs.values()) else 'a sequence'} as parent"
+                    f"{'' if any(y is c for y in pc.subunits) else ' but is not listed there'}")
+        for y in c.subunits:
+            if y.parent is not c or any(y is o for o in W.objs.values()):
+                return f"deep copy of unit {u}: a unit listed in the copy does not name the copy as parent or is shared with the original"
     return None
 
 
